@@ -102,10 +102,22 @@ func Bytes(n int) []byte {
 }
 
 // Int returns a fresh symbolic int in [lo,hi].
-func Int(lo, hi int) int { return int(int64(next("i"))) }
+func Int(lo, hi int) int {
+	x := int(int64(next("i")))
+	if lo == hi {
+		return lo // a degenerate range has no model value of its own
+	}
+	return x
+}
 
 // Choose returns a value in [lo,hi]; the engine forks one path per value.
-func Choose(lo, hi int) int { return int(int64(next("c"))) }
+func Choose(lo, hi int) int {
+	x := int(int64(next("c")))
+	if lo == hi {
+		return lo // a degenerate range has no model value of its own
+	}
+	return x
+}
 
 // Bool returns a fresh symbolic bool.
 func Bool() bool { return next("t") != 0 }
